@@ -17,6 +17,7 @@ from __future__ import annotations
 
 import contextlib
 import io
+import json
 import math
 
 import numpy as np
@@ -54,10 +55,14 @@ REQUIRED_COUNTERS = ['trials_checked', 'runs_reproduced',
                      'split_runs_compared', 'calibration_cells',
                      'exact_enumerations', 'failures_observed',
                      'get_results_checked', 'batch_runs',
-                     'batch_shared_error_model', 'interrupted_runs']
+                     'batch_shared_error_model', 'interrupted_runs',
+                     'sampled_errors_support_checked',
+                     'hash_seed_sessions_compared']
 SHARD_TIMEOUT = {'quick': 900, 'thorough': 5400}
 
-DIRS = {'depol': (1 / 3, 1 / 3, 1 / 3), 'biasZ3': (0.125, 0.125, 0.75),
+DIRS = {'pureZ': (0.0, 0.0, 1.0), 'pureX': (1.0, 0.0, 0.0),
+        'xz': (0.5, 0.0, 0.5),
+        'depol': (1 / 3, 1 / 3, 1 / 3), 'biasZ3': (0.125, 0.125, 0.75),
         'skew': (0.5, 0.3, 0.2), 'pureY': (0.0, 1.0, 0.0),
         'biasZ30': (1 / 62, 1 / 62, 30 / 31),
         'biasX8': (0.8, 0.1, 0.1)}
@@ -197,7 +202,8 @@ def make_cell(cell, seed):
     em = PauliErrorModel(*DIRS[cell['noise']], deformation_name=ndn)
     kw = dict(cell.get('dec_kw') or {})
     with contextlib.redirect_stdout(io.StringIO()):
-        dec = decoder_classes()[cell['decoder']](code, em, cell['rate'], **kw)
+        dec = decoder_classes()[cell['decoder']](
+            code, em, cell.get('dec_rate', cell['rate']), **kw)
     sim = DirectSimulation(code, em, dec, cell['rate'], verbose=False,
                            rng=np.random.default_rng(seed))
     return code, em, dec, sim
@@ -249,12 +255,28 @@ def run_cell(task, out):
         shotsA = rec.shots
         bad = 0
         nontriv = 0
+        ref = ref_channel(code, cell['cls'], DIRS[cell['noise']],
+                          cell['rate'], cell.get('noise_def'), {})
+        n = code.n
         for sh in shotsA:
             if not check_shot(out, orc, sh, desc, mech):
                 bad += 1
                 if bad > 3:
                     break
             nontriv += bool(np.any(sh['error']))
+            # the sampled error must be possible under the stated channel
+            ev = np.asarray(sh['error']).astype(int)
+            x, z = ev[:n], ev[n:]
+            col = np.where(x & z, 2, np.where(x, 1, np.where(z, 3, 0)))
+            out.count('sampled_errors_support_checked')
+            if np.any(ref[np.arange(n), col] <= 0):
+                q = int(np.argmax(ref[np.arange(n), col] <= 0))
+                out.violation(f'{mech}/sampled-error-impossible-under-channel',
+                              f'trial error has {"IXYZ"[col[q]]} on qubit '
+                              f'{q}, which has probability 0 at error rate '
+                              f"{cell['rate']!r}", desc)
+                bad += 4
+                break
         check_results(out, sim, shotsA, desc, mech)
         out.case(dict(desc, k='trials', seed=seed), nontrivial=nontriv > 0,
                  n=len(shotsA), distinct=nontriv,
@@ -396,6 +418,20 @@ def plan(tier, seed):
                             'size': list(size), 'noise': 'skew',
                             'noise_def': None, 'rate': 0.2,
                             'dec_kw': {'error_type': et}})
+    # ONE decoder set-up rate, a grid of simulated rates including the end
+    # points (a decoder reused over a sweep; p = 0 given as int or float)
+    for cls, size in (('Planar2DCode', (2, 2)), ('RotatedPlanar2DCode', (3, 3)),
+                      ('RotatedPlanar2DCode', (2, 3))):
+        for dname in ('MatchingDecoder', 'BeliefPropagationOSDDecoder'):
+            for noise in ('depol', 'skew'):
+                for rate in (0, 0.0, 0.04, 0.3, 1.0):
+                    if (noise == 'skew') != (dname == 'MatchingDecoder') \
+                            and rate not in (0, 0.0):
+                        continue
+                    special.append({'decoder': dname, 'cls': cls,
+                                    'size': list(size), 'noise': noise,
+                                    'noise_def': None, 'rate': rate,
+                                    'dec_rate': 0.1})
     if tier == 'quick':
         rng = np.random.default_rng([seed, 1112])
         keep = rng.choice(len(cells), size=min(len(cells), 40), replace=False)
@@ -426,6 +462,9 @@ def plan(tier, seed):
                       'cost': N * 3 * len(sizes) + 2000})
     if tier == 'thorough':
         tasks.append({'kind': 'contracts', 'cost': 60000})
+    tasks.append({'kind': 'hashrepro', 'seed': seed,
+                  'hash_seeds': [1, 2, 3] if tier == 'quick'
+                  else [1, 2, 3, 4, 5, 6, 7, 8], 'cost': 6000})
     tasks.append({'kind': 'interrupted', 'seed': seed,
                   'reps': 4 if tier == 'quick' else 40, 'cost': 3000})
     # larger codes: self-consistency + reproducibility only
@@ -464,6 +503,106 @@ def plan(tier, seed):
                           'N': Nb, 'calibrate': False, 'seed': seed,
                           'cost': Nb * per * 2 + 500})
     return tasks
+
+
+HASH_CELLS = [
+    {'decoder': 'MatchingDecoder', 'cls': 'Planar2DCode', 'size': [3, 3],
+     'noise': 'depol', 'noise_def': None, 'rate': 0.15},
+    {'decoder': 'MatchingDecoder', 'cls': 'Toric2DCode', 'size': [3, 4],
+     'noise': 'pureY', 'noise_def': None, 'rate': 0.2},
+    {'decoder': 'MatchingDecoder', 'cls': 'RotatedPlanar2DCode',
+     'size': [3, 3], 'noise': 'pureZ', 'noise_def': 'XZZX', 'rate': 0.2},
+    {'decoder': 'BeliefPropagationOSDDecoder', 'cls': 'Toric2DCode',
+     'size': [3, 3], 'noise': 'xz', 'noise_def': None, 'rate': 0.15},
+    {'decoder': 'BeliefPropagationOSDDecoder', 'cls': 'Toric3DCode',
+     'size': [2, 2, 2], 'noise': 'pureX', 'noise_def': None, 'rate': 0.1},
+    {'decoder': 'MatchingDecoder', 'cls': 'Planar2DCode', 'size': [2, 3],
+     'noise': 'skew', 'noise_def': 'XY', 'rate': 1.0},
+    {'decoder': 'UnionFindDecoder', 'cls': 'Toric2DCode', 'size': [3, 3],
+     'noise': 'biasZ30', 'noise_def': None, 'rate': 0.1},
+    {'decoder': 'SweepMatchDecoder', 'cls': 'Toric3DCode', 'size': [3, 3, 3],
+     'noise': 'pureZ', 'noise_def': None, 'rate': 0.05},
+]
+
+
+def repro_digests(seed):
+    """Digest of every recorded trial of a fixed list of seeded runs (runs
+    in this process and in child interpreters with other hash seeds)."""
+    import hashlib
+    rec = Recorder()
+    res = {}
+    try:
+        for ci, cell in enumerate(HASH_CELLS):
+            code, em, dec, sim = make_cell(cell, seed + ci)
+            rec.shots = []
+            with contextlib.redirect_stdout(io.StringIO()):
+                sim.run(7)
+                sim.run(33)
+            h = hashlib.blake2b(digest_size=10)
+            first = None
+            for sh in rec.shots:
+                for k in ('error', 'syndrome', 'correction',
+                          'effective_error'):
+                    h.update(np.asarray(sh[k]).astype('uint8').tobytes())
+                h.update(bytes([bool(sh['success']), bool(sh['codespace'])]))
+            res[str(ci)] = {'digest': h.hexdigest(), 'trials': len(rec.shots),
+                            'nontrivial': int(sum(bool(np.any(sh['error']))
+                                                  for sh in rec.shots)),
+                            'errors': [''.join(
+                                'IXZY'[int(a) + 2 * int(b)] for a, b in zip(
+                                    np.asarray(sh['error'])[:code.n],
+                                    np.asarray(sh['error'])[code.n:]))
+                                for sh in rec.shots[:40]]}
+    finally:
+        rec.close()
+    return res
+
+
+def repro_child(seed):
+    print('REPRO ' + json.dumps(repro_digests(seed)))
+
+
+def run_hashrepro(task, out):
+    """The same seeded runs in interpreters with different string-hash
+    seeds (PYTHONHASHSEED is random by default for users)."""
+    import subprocess
+    from pv.common import child_env, PYTHON
+    seed = 1000 + task['seed']
+    here = repro_digests(seed)
+    mech = 'seeded-run/across-interpreter-sessions'
+    for hs in task['hash_seeds']:
+        env = child_env()
+        env['PYTHONHASHSEED'] = str(hs)
+        try:
+            p = subprocess.run(
+                [PYTHON, '-c', 'from pv.checks import c11; '
+                 f'c11.repro_child({seed})'],
+                env=env, capture_output=True, text=True, timeout=600)
+        except subprocess.TimeoutExpired:
+            out.inconclusive_case(f'hash-seed child {hs} timed out')
+            continue
+        line = [ln for ln in p.stdout.splitlines() if ln.startswith('REPRO ')]
+        if p.returncode != 0 or not line:
+            out.inconclusive_case(f'hash-seed child {hs} failed: '
+                                  f'{p.stderr[-400:]}')
+            continue
+        there = json.loads(line[0][6:])
+        out.count('hash_seed_sessions_compared')
+        for ci, cell in enumerate(HASH_CELLS):
+            a, b = here[str(ci)], there[str(ci)]
+            out.count('runs_reproduced')
+            out.case(dict(cell, k='hashrepro', hash_seed=hs),
+                     nontrivial=a['nontrivial'] > 0, n=a['trials'])
+            if a['digest'] != b['digest']:
+                t = next((i for i, (x, y) in enumerate(
+                    zip(a['errors'], b['errors'])) if x != y), None)
+                out.violation(
+                    f"{mech}/{cell['decoder']}/not-reproducible",
+                    f'same seed, PYTHONHASHSEED=0 vs {hs}: '
+                    + (f"first differing sampled error is trial {t}: "
+                       f"{a['errors'][t]} vs {b['errors'][t]}"
+                       if t is not None else 'trial records differ'),
+                    dict(cell, hash_seed=hs))
 
 
 class _Abort(Exception):
@@ -615,7 +754,9 @@ def run_task(task, out):
         from pv.pytest_contracts import run_contract_suite
         run_contract_suite(out, 'run_once', 'run_once')
         return
-    if task.get('kind') == 'interrupted':
+    if task.get('kind') == 'hashrepro':
+        run_hashrepro(task, out)
+    elif task.get('kind') == 'interrupted':
         run_interrupted(task, out)
     elif task.get('kind') == 'batch':
         run_batch(task, out)
